@@ -42,6 +42,67 @@ BASE = "osaca/parser/base_parser.py"
 NO_GROUP = lambda n: n.kind != "Group"  # noqa: E731
 
 
+def _alias_regex(pat, what):
+    """`(?P<prefix>[a-zA-Z])?(?P<name>(sp|SP))` read from its parse tree (so `[A-Za-z]`, a missing inner group, a raw
+    string are the same): an optional group `prefix` of one ASCII letter, then a group `name` that matches a finite
+    list of words -> the words in order"""
+    try:
+        import re._parser as sp
+    except ImportError:  # Python < 3.11
+        import sre_parse as sp
+    try:
+        t = sp.parse(pat)
+    except Exception as e:
+        raise TranslateError("%s: regex %r does not parse: %s" % (what, pat, e))
+    bad = TranslateError("%s: unexpected regex %r" % (what, pat))
+    if t.state.flags & ~_re.UNICODE or dict(t.state.groupdict) != {"prefix": 1, "name": 2} or len(t) != 2:
+        raise bad
+
+    def chars(items):
+        out = []
+        for op, av in items:
+            if op == sp.LITERAL:
+                out.append(chr(av))
+            elif op == sp.RANGE and av[1] - av[0] < 64:
+                out += [chr(c) for c in range(av[0], av[1] + 1)]
+            else:
+                raise bad
+        return out
+
+    def words(seq):
+        res = [""]
+        for op, av in seq:
+            if op == sp.LITERAL:
+                alts = [chr(av)]
+            elif op == sp.IN:
+                alts = chars(av)
+            elif op == sp.SUBPATTERN:
+                if av[1] or av[2]:
+                    raise bad
+                alts = words(av[3])
+            elif op == sp.BRANCH:
+                alts = [w for alt in av[1] for w in words(alt)]
+            else:
+                raise bad
+            res = [a + b for a in res for b in alts]
+            if len(res) > 64:
+                raise bad
+        return res
+
+    (op1, av1), (op2, av2) = t[0], t[1]
+    if op1 != sp.MAX_REPEAT or av1[0] != 0 or av1[1] != 1 or len(av1[2]) != 1 or av1[2][0][0] != sp.SUBPATTERN \
+            or av1[2][0][1][0] != 1 or op2 != sp.SUBPATTERN or av2[0] != 2:
+        raise bad
+    pre = av1[2][0][1][3]
+    if len(pre) != 1 or pre[0][0] != sp.IN or sorted(chars(pre[0][1])) != sorted(
+            "abcdefghijklmnopqrstuvwxyzABCDEFGHIJKLMNOPQRSTUVWXYZ"):
+        raise bad
+    names = words([t[1]])
+    if not names or len(set(names)) != len(names) or any(not w.isalpha() for w in names):
+        raise bad
+    return names
+
+
 def _caseless_alts(node, what, n_min=1):
     """`CaselessLiteral(a) ^ CaselessLiteral(b) ^ ...` (or a single one) -> [a, b, ...]"""
     kids = node.kids if node.kind == "Or" else [node]
@@ -186,10 +247,7 @@ def read_grammar(it):
         pat = U.strarg(node, name)
         if node.kw:
             raise TranslateError("%s: Regex flags are not modelled" % name)
-        m = _re.fullmatch(r"\(\?P<prefix>\[a-zA-Z\]\)\?\(\?P<name>\(([A-Za-z|]+)\)\)", pat)
-        if not m:
-            raise TranslateError("%s: unexpected regex %r" % (name, pat))
-        aliases.append(m.group(1).split("|"))
+        aliases.append(_alias_regex(pat, name))
     g["aliases"] = aliases
     # shift_op, as used in register and in arith_immediate
     so = only(U.named(rseq.kids[1], "shift_op", NO_GROUP), "register: shift_op")
@@ -388,6 +446,8 @@ def read_memory(pm, interp):
         names = []
         conj = node.test.values if isinstance(node.test, ast.BoolOp) and isinstance(node.test.op, ast.And) else [node.test]
         for c in conj:
+            if isinstance(c, ast.Name) and c.id == var:
+                continue        # `x and ...` for `x is not None and ...` (an empty dict has no "name" either)
             if not (isinstance(c, ast.Compare) and len(c.ops) == 1):
                 raise TranslateError("process_memory_address: unexpected alias test at line %d" % node.lineno)
             l, op, rr = c.left, c.ops[0], c.comparators[0]
@@ -404,9 +464,15 @@ def read_memory(pm, interp):
             hit = False
             for s, o in sides:
                 s = fenv.resolve(s)
-                if U.is_call(s, "lower") and not s.args and isinstance(s.func.value, ast.Subscript) \
-                        and isinstance(s.func.value.value, ast.Name) and s.func.value.value.id == var \
-                        and fenv.try_const(s.func.value.slice, b) == (True, "name"):
+                if not (U.is_call(s, "lower") and not s.args):
+                    continue
+                subj = fenv.resolve(s.func.value)
+                by_index = isinstance(subj, ast.Subscript) and isinstance(subj.value, ast.Name) and subj.value.id == var \
+                    and fenv.try_const(subj.slice, b) == (True, "name")
+                by_get = U.is_call(subj, "get") and isinstance(subj.func.value, ast.Name) and subj.func.value.id == var \
+                    and len(subj.args) == 2 and fenv.try_const(subj.args[0], b) == (True, "name") \
+                    and fenv.try_const(subj.args[1], b) == (True, "")
+                if by_index or by_get:
                     okc, cv = fenv.try_const(o, b)
                     if okc and isinstance(op, ast.Eq) and isinstance(cv, str):
                         names.append(cv)
